@@ -37,6 +37,11 @@ pub struct StreamSpec {
     pub error_flavor: u8,
 }
 
+/// Payload of the unwind a stream of flavour 4 starts instead of returning an error: the caller's reader or sink
+/// panics (a bug or a cancellation in the embedding application), and the compilation is unwound from wherever it
+/// happened to read or write. What the thread compiles next must not notice.
+pub struct InjectedUnwind;
+
 fn hard_error(flavor: u8, write: bool) -> io::Error {
     match flavor {
         1 => (if write { ErrorKind::BrokenPipe } else { ErrorKind::UnexpectedEof }).into(),
@@ -168,6 +173,9 @@ impl BufRead for SimReader {
                     // the stream simply ends here
                     return Ok(&[]);
                 }
+                if self.flavor == 4 {
+                    std::panic::resume_unwind(Box::new(InjectedUnwind));
+                }
                 return Err(hard_error(self.flavor, false));
             }
         }
@@ -271,6 +279,9 @@ impl Write for SimWriter {
                 if self.flavor == 3 {
                     // a full sink: accepts nothing (write_all turns this into WriteZero)
                     return Ok(0);
+                }
+                if self.flavor == 4 {
+                    std::panic::resume_unwind(Box::new(InjectedUnwind));
                 }
                 return Err(hard_error(self.flavor, true));
             }
